@@ -1,4 +1,440 @@
 import MementoModel.Model.ArgHash
+import MementoModel.Lemmas.JsonLemmas
+import MementoModel.Lemmas.ArgHashLemmas
+
+/-!
+# C04 — argument identity: the memo key is canonical in the bound argument values
+
+The key of a call is `H (render (keyTokens effKw ctx))` with `H` = SHA-256. Everything below is
+about `keyTokens` (token level); with `H ∘ render` injective (SHA-256 idealised; `render` of
+primitive tokens = `json.dumps`, trusted and validated by the correspondence check) equal keys ⇔
+equal token lists.
+
+Proof architecture: `Lemmas/JsonLemmas.lean` defines `serC`, the serialisation *without* sorting,
+and proves that it is prefix-free, hence injective; here `ser v = serC (canonJ v)`
+(`ser_eq_serC_canon`, unconditional), which gives (a) and (b).  `Lemmas/ArgHashLemmas.lean` has the
+`decode`/`encode` fixed-point lemma and the `kwSet`/`effKw` computation.
+-/
 namespace Memento.ArgHash
-theorem placeholder_c04 : encode .none = .null := by simp [encode]
+open Memento.Json
+
+/-! ## canonical forms: dictionaries as maps (member order irrelevant) -/
+
+def jobjOfList : List (String × JVal) → JObj
+  | [] => .nil
+  | (k, v) :: r => .cons k v (jobjOfList r)
+
+def jkeys : JObj → List String
+  | .nil => []
+  | .cons k _ o => k :: jkeys o
+
+mutual
+  /-- sort object members by key, recursively -/
+  def canonJ : JVal → JVal
+    | .arr l => .arr (canonJL l)
+    | .obj o => .obj (jobjOfList (sortKV (canonJO o)))
+    | v => v
+  def canonJL : JList → JList
+    | .nil => .nil
+    | .cons v l => .cons (canonJ v) (canonJL l)
+  def canonJO : JObj → List (String × JVal)
+    | .nil => []
+    | .cons k v o => (k, canonJ v) :: canonJO o
+end
+
+mutual
+  /-- Python dicts have distinct keys, at every level -/
+  def DistinctJ : JVal → Prop
+    | .arr l => DistinctJL l
+    | .obj o => (jkeys o).Nodup ∧ DistinctJO o
+    | _ => True
+  def DistinctJL : JList → Prop
+    | .nil => True
+    | .cons v l => DistinctJ v ∧ DistinctJL l
+  def DistinctJO : JObj → Prop
+    | .nil => True
+    | .cons _ v o => DistinctJ v ∧ DistinctJO o
+end
+
+/-! ### `ser` is the unsorted serialisation of the canonical form -/
+
+theorem serCO_jobjOfList : ∀ l : List (String × JVal),
+    serCO (jobjOfList l) = l.map (fun p => (p.1, serC p.2))
+  | [] => by simp [jobjOfList, serCO]
+  | (k, v) :: r => by simp [jobjOfList, serCO, serCO_jobjOfList r]
+
+theorem canonJO_jobjOfList : ∀ l : List (String × JVal),
+    canonJO (jobjOfList l) = l.map (fun p => (p.1, canonJ p.2))
+  | [] => by simp [jobjOfList, canonJO]
+  | (k, v) :: r => by simp [jobjOfList, canonJO, canonJO_jobjOfList r]
+
+theorem jobjOfList_injective : ∀ {l l' : List (String × JVal)}, jobjOfList l = jobjOfList l' → l = l'
+  | [], [], _ => rfl
+  | [], (_, _) :: _, h => by simp [jobjOfList] at h
+  | (_, _) :: _, [], h => by simp [jobjOfList] at h
+  | (k, v) :: r, (k', v') :: r', h => by
+    simp only [jobjOfList, JObj.cons.injEq] at h
+    rw [h.1, h.2.1, jobjOfList_injective h.2.2]
+
+theorem canonJO_keys : ∀ o : JObj, (canonJO o).map (·.1) = jkeys o
+  | .nil => by simp [canonJO, jkeys]
+  | .cons k v o => by simp [canonJO, jkeys, canonJO_keys o]
+
+mutual
+  theorem ser_eq_serC_canon : ∀ v : JVal, ser v = serC (canonJ v)
+    | .null => by simp [canonJ, ser, serC]
+    | .bool b => by simp [canonJ, ser, serC]
+    | .num t => by simp [canonJ, ser, serC]
+    | .str s => by simp [canonJ, ser, serC]
+    | .arr l => by simp [canonJ, ser, serC, serL_eq_serCL_canon l]
+    | .obj o => by
+      simp only [canonJ, ser, serC, serCO_jobjOfList, serO_eq_canon o]
+      rw [sortKV_map]
+  theorem serL_eq_serCL_canon : ∀ l : JList, serL l = serCL (canonJL l)
+    | .nil => by simp [canonJL, serL, serCL]
+    | .cons v .nil => by simp [canonJL, serL, serCL, ser_eq_serC_canon v]
+    | .cons v (.cons v' l') => by
+      have := serL_eq_serCL_canon (.cons v' l')
+      simp only [canonJL] at this
+      simp [canonJL, serL, serCL, ser_eq_serC_canon v, this]
+  theorem serO_eq_canon : ∀ o : JObj, serO o = (canonJO o).map (fun p => (p.1, serC p.2))
+    | .nil => by simp [canonJO, serO]
+    | .cons k v o => by simp [canonJO, serO, ser_eq_serC_canon v, serO_eq_canon o]
+end
+
+mutual
+  theorem canonJ_idem : ∀ v : JVal, DistinctJ v → canonJ (canonJ v) = canonJ v
+    | .null, _ => by simp [canonJ]
+    | .bool b, _ => by simp [canonJ]
+    | .num t, _ => by simp [canonJ]
+    | .str s, _ => by simp [canonJ]
+    | .arr l, h => by
+      simp only [DistinctJ] at h
+      simp [canonJ, canonJL_idem l h]
+    | .obj o, h => by
+      simp only [DistinctJ] at h
+      simp only [canonJ, canonJO_jobjOfList]
+      rw [← sortKV_map, canonJO_idem o h.2, sortKV_idem]
+      rw [canonJO_keys]; exact h.1
+  theorem canonJL_idem : ∀ l : JList, DistinctJL l → canonJL (canonJL l) = canonJL l
+    | .nil, _ => by simp [canonJL]
+    | .cons v l, h => by
+      simp only [DistinctJL] at h
+      simp [canonJL, canonJ_idem v h.1, canonJL_idem l h.2]
+  theorem canonJO_idem : ∀ o : JObj, DistinctJO o →
+      (canonJO o).map (fun p => (p.1, canonJ p.2)) = canonJO o
+    | .nil, _ => by simp [canonJO]
+    | .cons k v o, h => by
+      simp only [DistinctJO] at h
+      simp [canonJO, canonJ_idem v h.1, canonJO_idem o h.2]
+end
+
+
+/-- (a) key order / dictionary insertion order is irrelevant: the normalized JSON of a value is
+    that of its canonical form.  (`DistinctJ` is needed: on equal keys `sortKV` puts the member
+    that was stored *later* first, so with duplicate keys sorting twice is not sorting once.) -/
+theorem ser_canon (v : JVal) (h : DistinctJ v) : ser (canonJ v) = ser v := by
+  rw [ser_eq_serC_canon, ser_eq_serC_canon v, canonJ_idem v h]
+
+/-- `DistinctJ` cannot be dropped from `ser_canon`: with a duplicate key the model's `sortKV` reverses
+    the two members (`sortKV [("a", 1), ("a", 2)] = [("a", 2), ("a", 1)]`) -/
+example : ser (canonJ (.obj (.cons "a" (.num "1") (.cons "a" (.num "2") .nil)))) ≠
+    ser (.obj (.cons "a" (.num "1") (.cons "a" (.num "2") .nil))) := by decide
+
+/-- (b), without the distinctness hypotheses (they are not needed) -/
+theorem ser_injective' {v w : JVal} (h : ser v = ser w) : canonJ v = canonJ w := by
+  rw [ser_eq_serC_canon, ser_eq_serC_canon w] at h
+  exact serC_injective h
+
+/-- (b) the normalized JSON is injective on JSON values up to member order: equal token lists ⇒
+    equal canonical forms (the grammar is unambiguous) -/
+theorem ser_injective (v w : JVal) (_hv : DistinctJ v) (_hw : DistinctJ w) (h : ser v = ser w) :
+    canonJ v = canonJ w :=
+  ser_injective' h
+
+/-- converse of (b): equal canonical forms ⇒ equal token lists -/
+theorem ser_eq_of_canon_eq {v w : JVal} (h : canonJ v = canonJ w) : ser v = ser w := by
+  rw [ser_eq_serC_canon, ser_eq_serC_canon w, h]
+
+/-! ## normalized argument values -/
+
+/-- everything that `decode` returns is a fixed point of `normalize` -/
+theorem normalize_of_decode (v : JVal) (n : Arg) (h : decode v = some n) : normalize n = some n :=
+  decode_fix v n h
+
+/-- normalization is idempotent: what `normalize` returns is a fixed point -/
+theorem normalize_idem (a n : Arg) (h : normalize a = some n) : normalize n = some n :=
+  decode_fix (encode a) n h
+
+/-- on normalized values `encode` is injective (decode is a left inverse) -/
+theorem encode_injective_on_normalized (a b : Arg) (ha : normalize a = some a) (hb : normalize b = some b)
+    (h : encode a = encode b) : a = b := by
+  unfold normalize at ha hb
+  rw [h, hb] at ha
+  exact (Option.some.inj ha).symm
+
+/-- **key ⇔ value**: two normalized values have the same normalized JSON iff their encodings are
+    equal as JSON values up to dictionary member order -/
+theorem key_iff (a b : Arg) (_ha : DistinctJ (encode a)) (_hb : DistinctJ (encode b)) :
+    ser (encode a) = ser (encode b) ↔ canonJ (encode a) = canonJ (encode b) :=
+  ⟨ser_injective', ser_eq_of_canon_eq⟩
+
+theorem int_tok_is_int (z : Int) : isIntTok (intTok z) = true := isIntTok_intTok z
+
+/-- an integer token reads back as the integer (`json.loads (json.dumps z) = z`) -/
+theorem int_tok_roundtrip (z : Int) : decode (.num (intTok z)) = some (.int z) := by
+  simp [decode, isIntTok_intTok, intTok_toInt]
+
+/-- type separation: boolean / integer / float / string / date / datetime / null never share a key -/
+theorem type_separation_bool_int (b : Bool) (z : Int) : ser (encode (.bool b)) ≠ ser (encode (.int z)) := by
+  simp [encode, ser]
+theorem type_separation_int_float (z : Int) (t : String) (ht : isIntTok t = false) :
+    ser (encode (.int z)) ≠ ser (encode (.float t)) := by
+  intro h
+  simp only [encode, ser, List.cons.injEq, Tok.prim.injEq, Prim.num.injEq, and_true] at h
+  rw [← h, isIntTok_intTok] at ht
+  exact Bool.noConfusion ht
+theorem type_separation_int_str (z : Int) (s : String) : ser (encode (.int z)) ≠ ser (encode (.str s)) := by
+  simp [encode, ser]
+theorem type_separation_date_datetime (d t : String) : ser (encode (.date d)) ≠ ser (encode (.datetime t)) := by
+  intro h
+  have := ser_injective' h
+  simp [encode, canonJ, canonJO, sortKV, insertKV, jobjOfList] at this
+theorem type_separation_date_str (d s : String) : ser (encode (.date d)) ≠ ser (encode (.str s)) := by
+  simp [encode, ser]
+theorem type_separation_naive_aware (t t' : String) (h : t ≠ t') :
+    ser (encode (.datetime t)) ≠ ser (encode (.datetime t')) := by
+  intro he
+  have := ser_injective' he
+  simp [encode, canonJ, canonJO, sortKV, insertKV, jobjOfList] at this
+  exact h this
+
+/-! ## presentations -/
+
+/-- the binding of parameter names to values as a map -/
+def binding (params : List String) (vs : List Arg) : KwMap := params.zip vs
+
+/-- two keyword maps with the same lookups -/
+def SameMap (m m' : KwMap) : Prop := ∀ k, kwGet m k = kwGet m' k
+
+/-- the bindings of the parameters from position `i` on that `pk` does not name, in parameter order -/
+def restBindings (params : List String) (vs : List Arg) (i : Nat) (pk : KwMap) : KwMap :=
+  ((binding params vs).drop i).filter (fun b => !kwHas pk b.1)
+
+/-- a presentation of the binding `params ↦ vs`:
+    * the first `i` parameters as partial positional arguments;
+    * *any* sub-collection `pk` of the bindings of the other parameters as partial keyword arguments,
+      in any order (in particular a partial keyword argument may name an *earlier* parameter than a
+      positional one: `def area(w, h)`, `area.partial(w=3)(4)`);
+    * of the parameters that are then still unbound (`restBindings`, in parameter order) the first
+      `r` positionally, the others as keyword arguments `kw`, in any order. -/
+structure Presentation (params : List String) (vs : List Arg) where
+  i : Nat
+  pk : KwMap
+  r : Nat
+  kw : KwMap
+  hi : i ≤ params.length
+  /-- `pk` names distinct parameters … -/
+  hpkN : (pk.map (·.1)).Nodup
+  /-- … after the first `i`, each with its value -/
+  hpk : ∀ b ∈ pk, b ∈ (binding params vs).drop i
+  hr : r ≤ (restBindings params vs i pk).length
+  /-- `kw` is a permutation of the bindings that are still open -/
+  hkw : kw.Perm ((restBindings params vs i pk).drop r)
+
+/-- the partial positional arguments of a presentation -/
+def Presentation.pargs {params : List String} {vs : List Arg} (p : Presentation params vs) : List Arg :=
+  vs.take p.i
+
+/-- the positional arguments of a presentation: the values of the first `r` unbound parameters -/
+def Presentation.args {params : List String} {vs : List Arg} (p : Presentation params vs) : List Arg :=
+  ((restBindings params vs p.i p.pk).take p.r).map (·.2)
+
+/-- the names in `restBindings` are the `remaining` names of `effKw`: the parameters from `i` on
+    that `pk` does not name, order preserved -/
+theorem restBindings_names (params : List String) (vs : List Arg) (hl : vs.length = params.length)
+    (i : Nat) (pk : KwMap) :
+    (restBindings params vs i pk).map (·.1) = (params.drop i).filter (fun n => !kwHas pk n) := by
+  unfold restBindings binding
+  have e : params.drop i = ((params.zip vs).drop i).map (·.1) := by
+    rw [List.map_drop, List.map_fst_zip (by omega)]
+  rw [e, List.filter_map]
+  rfl
+
+/-- the effective keyword arguments of a presentation, explicitly; they are a permutation of the
+    binding -/
+theorem presentation_effKw (params : List String) (vs : List Arg) (hp : params.Nodup)
+    (hl : vs.length = params.length) (p : Presentation params vs) :
+    ∃ m, effKw params p.pargs p.pk p.args p.kw = .ok m ∧ m.Perm (binding params vs) :=
+  ⟨_, effKw_presentation params vs hp hl p.i p.pk p.r p.kw p.hi p.hpkN p.hpk p.hr p.hkw⟩
+
+theorem binding_keys (params : List String) (vs : List Arg) (hl : vs.length = params.length) :
+    (binding params vs).map (·.1) = params :=
+  List.map_fst_zip (by omega)
+
+/-- (a) positional vs keyword passing, partial application, keyword order: every presentation of a
+    binding yields the same effective keyword arguments (as a map) … -/
+theorem presentation_invariance (params : List String) (vs : List Arg) (hp : params.Nodup)
+    (hl : vs.length = params.length) (p : Presentation params vs) :
+    ∃ m, effKw params p.pargs p.pk p.args p.kw = .ok m ∧
+      SameMap m (binding params vs) ∧ (m.map (·.1)).Perm params := by
+  obtain ⟨m, hm, hperm⟩ := presentation_effKw params vs hp hl p
+  have hk : (m.map (·.1)).Perm params := by
+    have := hperm.map (·.1)
+    rwa [binding_keys params vs hl] at this
+  exact ⟨m, hm, fun k => kwGet_eq_of_perm hperm (hk.nodup_iff.mpr hp) k, hk⟩
+
+/-- … and therefore the same key tokens.  (`hd`, `hc` are not needed.) -/
+theorem presentation_same_key (params : List String) (vs : List Arg) (hp : params.Nodup)
+    (hl : vs.length = params.length) (p q : Presentation params vs) (ctx : KwMap)
+    (_hd : ∀ v ∈ vs, DistinctJ (encode v)) (_hc : DistinctJ (encode (.dict (ArgObj.ofList ctx))))
+    (hr : "_memento_context_args" ∉ params) :
+    ∀ m m', effKw params p.pargs p.pk p.args p.kw = .ok m →
+      effKw params q.pargs q.pk q.args q.kw = .ok m' →
+      keyTokens m ctx = keyTokens m' ctx := by
+  intro m m' hm hm'
+  obtain ⟨m0, h0, hperm⟩ := presentation_effKw params vs hp hl p
+  obtain ⟨m0', h0', hperm'⟩ := presentation_effKw params vs hp hl q
+  rw [hm] at h0; rw [hm'] at h0'
+  cases h0; cases h0'
+  have hk : (m.map (·.1)).Perm params := by
+    have := hperm.map (·.1)
+    rwa [binding_keys params vs hl] at this
+  exact keyTokens_perm ctx (hperm.trans hperm'.symm) (hk.nodup_iff.mpr hp)
+    (fun h => hr (hk.mem_iff.mp h))
+
+/-! ### the narrow form (partial keyword arguments only after the positional arguments)
+
+This is the statement as it was first given; it is the special case `r := j - i` of the general one,
+where no partial keyword argument names one of the parameters `i..j`. -/
+
+structure NarrowPresentation (params : List String) (vs : List Arg) where
+  i : Nat
+  j : Nat
+  pk : KwMap
+  kw : KwMap
+  hij : i ≤ j
+  hj : j ≤ params.length
+  /-- `pk ++ kw` is a permutation of the bindings of the remaining parameters -/
+  rest : (pk ++ kw).Perm ((binding params vs).drop j)
+
+theorem binding_length (params : List String) (vs : List Arg) (hl : vs.length = params.length) :
+    (binding params vs).length = params.length := by
+  unfold binding; rw [List.length_zip]; omega
+
+/-- a narrow presentation is a presentation -/
+def NarrowPresentation.toPresentation {params : List String} {vs : List Arg} (hp : params.Nodup)
+    (hl : vs.length = params.length) (p : NarrowPresentation params vs) : Presentation params vs :=
+  have hB : ((binding params vs).map (·.1)).Nodup := by rw [binding_keys params vs hl]; exact hp
+  have hn := narrow_rest (binding params vs) hB p.i p.j p.hij
+    (by rw [binding_length params vs hl]; exact p.hj) p.pk p.kw p.rest
+  { i := p.i, pk := p.pk, r := p.j - p.i, kw := p.kw
+    hi := Nat.le_trans p.hij p.hj
+    hpkN := by
+      have : ((p.pk ++ p.kw).map (·.1)).Nodup :=
+        (p.rest.map _).nodup_iff.mpr (((List.drop_sublist p.j _).map _).nodup hB)
+      rw [List.map_append, List.nodup_append] at this
+      exact this.1
+    hpk := by
+      intro b hb
+      have hb' : b ∈ (binding params vs).drop p.j := p.rest.mem_iff.mp (List.mem_append_left _ hb)
+      have e : (binding params vs).drop p.j = ((binding params vs).drop p.i).drop (p.j - p.i) := by
+        rw [List.drop_drop, show p.i + (p.j - p.i) = p.j from by have := p.hij; omega]
+      rw [e] at hb'
+      exact List.mem_of_mem_drop hb'
+    hr := by
+      unfold restBindings
+      rw [hn.1, List.length_append, hn.2.2]; omega
+    hkw := by
+      unfold restBindings
+      rw [hn.1, List.drop_left' hn.2.2]
+      exact hn.2.1 }
+
+theorem NarrowPresentation.args_eq {params : List String} {vs : List Arg} (hp : params.Nodup)
+    (hl : vs.length = params.length) (p : NarrowPresentation params vs) :
+    (p.toPresentation hp hl).args = (vs.drop p.i).take (p.j - p.i) := by
+  have hB : ((binding params vs).map (·.1)).Nodup := by rw [binding_keys params vs hl]; exact hp
+  have hn := narrow_rest (binding params vs) hB p.i p.j p.hij
+    (by rw [binding_length params vs hl]; exact p.hj) p.pk p.kw p.rest
+  show ((restBindings params vs p.i p.pk).take (p.j - p.i)).map (·.2) = _
+  unfold restBindings
+  rw [hn.1, List.take_left' hn.2.2, List.map_take, List.map_drop]
+  unfold binding
+  rw [List.map_snd_zip (by omega)]
+
+/-- the original statement of (a) -/
+theorem presentation_invariance_narrow (params : List String) (vs : List Arg) (hp : params.Nodup)
+    (hl : vs.length = params.length) (p : NarrowPresentation params vs) :
+    ∃ m, effKw params (vs.take p.i) p.pk ((vs.drop p.i).take (p.j - p.i)) p.kw = .ok m ∧
+      SameMap m (binding params vs) ∧ (m.map (·.1)).Perm params := by
+  have := presentation_invariance params vs hp hl (p.toPresentation hp hl)
+  rwa [NarrowPresentation.args_eq hp hl p] at this
+
+/-- the original statement of "… and therefore the same key tokens" -/
+theorem presentation_same_key_narrow (params : List String) (vs : List Arg) (hp : params.Nodup)
+    (hl : vs.length = params.length) (p q : NarrowPresentation params vs) (ctx : KwMap)
+    (hd : ∀ v ∈ vs, DistinctJ (encode v)) (hc : DistinctJ (encode (.dict (ArgObj.ofList ctx))))
+    (hr : "_memento_context_args" ∉ params) :
+    ∀ m m', effKw params (vs.take p.i) p.pk ((vs.drop p.i).take (p.j - p.i)) p.kw = .ok m →
+      effKw params (vs.take q.i) q.pk ((vs.drop q.i).take (q.j - q.i)) q.kw = .ok m' →
+      keyTokens m ctx = keyTokens m' ctx := by
+  have := presentation_same_key params vs hp hl (p.toPresentation hp hl) (q.toPresentation hp hl)
+    ctx hd hc hr
+  rwa [NarrowPresentation.args_eq hp hl p, NarrowPresentation.args_eq hp hl q] at this
+
+/-- the motivating case of the general form: `def area(w, h)`, `area.partial(w=3)(4)` binds `h = 4` -/
+example : effKw ["w", "h"] [] [("w", .int 3)] [.int 4] [] = .ok [("w", .int 3), ("h", .int 4)] := by rfl
+
+/-- … and it is a `Presentation` (`i = 0`, `pk = {w: 3}`, `r = 1`, no keyword arguments) -/
+example : Presentation ["w", "h"] [.int 3, .int 4] where
+  i := 0
+  pk := [("w", .int 3)]
+  r := 1
+  kw := []
+  hi := by decide
+  hpkN := by simp
+  hpk := by simp [binding]
+  hr := by simp [restBindings, binding, kwHas]
+  hkw := by simp [restBindings, binding, kwHas]
+
+/-- context arguments are part of the key; the empty dictionary is the same as none -/
+theorem ctx_empty_is_absent (kw : KwMap) : keyTokens kw [] = ser (encode (.dict (ArgObj.ofList kw))) := by
+  simp [keyTokens, withCtx]
+
+theorem canonJO_encodeO_ofList : ∀ l : List (String × Arg),
+    canonJO (encodeO (ArgObj.ofList l)) = l.map (fun p => (p.1, canonJ (encode p.2)))
+  | [] => by simp [ArgObj.ofList, encodeO, canonJO]
+  | (k, a) :: r => by simp [ArgObj.ofList, encodeO, canonJO, canonJO_encodeO_ofList r]
+
+/-- (`hk`, `hd`, `hc`, `hc'` are not needed.) -/
+theorem ctx_distinguishes (kw ctx ctx' : KwMap) (_hk : (kw.map (·.1)).Nodup)
+    (hr : "_memento_context_args" ∉ kw.map (·.1))
+    (_hd : DistinctJ (encode (.dict (ArgObj.ofList kw))))
+    (_hc : DistinctJ (encode (.dict (ArgObj.ofList ctx)))) (_hc' : DistinctJ (encode (.dict (ArgObj.ofList ctx'))))
+    (hne : ctx ≠ []) (hne' : ctx' ≠ [])
+    (h : keyTokens kw ctx = keyTokens kw ctx') :
+    canonJ (encode (.dict (ArgObj.ofList ctx))) = canonJ (encode (.dict (ArgObj.ofList ctx'))) := by
+  unfold keyTokens at h
+  rw [withCtx_fresh _ _ hne hr, withCtx_fresh _ _ hne' hr] at h
+  have hc := ser_injective' h
+  simp only [encode, canonJ, JVal.obj.injEq] at hc
+  have hs := jobjOfList_injective hc
+  rw [canonJO_encodeO_ofList, canonJO_encodeO_ofList, List.map_append, List.map_append] at hs
+  simp only [List.map_cons, List.map_nil] at hs
+  have hmem : ("_memento_context_args", canonJ (encode (.dict (ArgObj.ofList ctx)))) ∈
+      sortKV (kw.map (fun p => (p.1, canonJ (encode p.2))) ++
+        [("_memento_context_args", canonJ (encode (.dict (ArgObj.ofList ctx'))))]) := by
+    rw [← hs, mem_sortKV]; simp
+  rw [mem_sortKV, List.mem_append] at hmem
+  rcases hmem with hmem | hmem
+  · exfalso
+    obtain ⟨b, hb, e⟩ := List.mem_map.mp hmem
+    exact hr (List.mem_map.mpr ⟨b, hb, (Prod.mk.inj e).1⟩)
+  · simp only [List.mem_singleton, Prod.mk.injEq, true_and] at hmem
+    exact hmem
+
+/-! non-vacuity -/
+example : render (keyTokens [("b", .int 1), ("a", .list (.cons (.bool true) (.cons .none .nil)))] [("k", .str "é")])
+    = "{\"_memento_context_args\":{\"k\":\"\\u00e9\"},\"a\":[true,null],\"b\":1}" := by decide
+
 end Memento.ArgHash
